@@ -1812,7 +1812,8 @@ BTree_rangeSearch(BTree *self, PyObject *args, PyObject *kw, char type)
     /* The buckets differ, or they're the same and the offsets show a non-
     * empty range.
     */
-    if (min != Py_None && max != Py_None && /* both args user-supplied */
+    if ((min != Py_None || excludemin) && /* both ends were moved inward, */
+        (max != Py_None || excludemax) && /* by a key or by an exclusion */
         lowbucket != highbucket)   /* and different buckets */
     {
         KEY_TYPE first;
